@@ -1,9 +1,11 @@
 (* C06 - the packet codec is total, bounded and round-trips.  Statements only; proofs in
    Proofs/Codec*.v.  `read_packet`, `pack`, `total_bytes` are the model of pkg/packets
    (Model/CodecPackets.v); `spec_*` is the independent transcription of the MQTT 3.1.1 / 5.0
-   wire format (Model/CodecSpec.v).  Theorems named *_refuted state that the property as written
-   is FALSE of the code (the witness is the replay input); *_partial is what holds outside the
-   known-finding predicates kf_* of Oracle/C06O.v. *)
+   wire format (Model/CodecSpec.v).  Every statement below is the FULL statement: the former
+   *_refuted / *_partial pairs (allocation, topic names, topic filters) have become theorems about
+   every input since the code was repaired.  The two deviations that remain (kf_auth_v3,
+   kf_pubrel_v3 of Oracle/C06O.v: lenient acceptance pinned by tests of pkg/packets) do not
+   touch any statement here; their witnesses are in C06_nonvacuous_findings. *)
 From Coq Require Import List NArith Bool.
 Import ListNotations.
 From GM Require Import Base.Topic Base.Msg Model.TopicMatch Model.CodecBase Model.CodecProps Model.CodecPackets
@@ -49,24 +51,19 @@ Theorem C06_consumes :
 Proof. exact read_packet_consumes. Qed.
 Print Assumptions C06_consumes.
 
-(* ---- allocation.  "Memory in proportion to the bytes supplied" is false: Unpack allocates
-   the declared Remaining Length before reading (5 bytes -> 256 MiB). *)
-Theorem C06_alloc_refuted : exists v bs, ~ alloc_proportional v bs.
-Proof. exact alloc_proportional_refuted. Qed.
-Print Assumptions C06_alloc_refuted.
-(* what holds: the only allocation is the declared length; an accepted packet never made
-   the decoder allocate more than the input holds *)
-Theorem C06_alloc_partial :
+(* ---- allocation: memory in proportion to the bytes supplied.  Unpack allocates the declared
+   Remaining Length up front only up to 4096 bytes; a longer body is read into a buffer that
+   grows with the bytes that actually arrive.  (5 bytes declaring 256 MiB allocate nothing.) *)
+Theorem C06_alloc :
   forall (v : N) (bs : list N),
-    (kf_alloc_upfront v bs = false -> model_stream_alloc 4 v bs <= len bs) /\
-    (forall p rest, read_packet v bs = Ok (p, rest) -> read_alloc v bs <= len bs) /\
-    (read_alloc v bs = 0 \/
-     exists first r rl r1, bs = first :: r /\ read_varint r = Ok (rl, r1) /\ read_alloc v bs = rl).
+    read_alloc v bs <= 64 * len bs + 4096 /\
+    (read_alloc v bs <= 4096 \/ read_alloc v bs <= len bs) /\
+    (forall p rest, read_packet v bs = Ok (p, rest) -> read_alloc v bs <= len bs).
 Proof.
-  exact (fun v bs => conj (alloc_proportional_partial v bs)
-                     (conj (read_alloc_accepted v bs) (read_alloc_declared v bs))).
+  exact (fun v bs => conj (alloc_proportional_all v bs)
+                     (conj (read_alloc_bounded v bs) (read_alloc_accepted v bs))).
 Qed.
-Print Assumptions C06_alloc_partial.
+Print Assumptions C06_alloc.
 
 (* ---- variable byte integers: DecodeRemainLength writes the canonical (shortest) encoding and
    EncodeRemainLength reads it back, leaving what follows untouched *)
@@ -160,26 +157,18 @@ Theorem C06_msg_size :
 Proof. exact msg_total_bytes_pack. Qed.
 Print Assumptions C06_msg_size.
 
-(* ---- topic names and filters.  ValidTopicFilter without the UTF-8 requirement IS the level rule
-   of MQTT 4.7.1 (every '+' occupies a whole level, '#' is a whole last level), on every byte string *)
+(* ---- topic names and filters.  Without the UTF-8 requirement ValidTopicName and ValidTopicFilter
+   ARE the predicates of MQTT 4.7 on every byte string: non-empty [MQTT-4.7.3-1], no U+0000
+   [MQTT-4.7.3-2]; a name has no wildcard; in a filter every '+' occupies a whole level and '#' is a
+   whole last level (4.7.1) *)
+Theorem C06_topic_name_exact :
+  forall (s : str), valid_topic_name_impl false s = Ok (valid_name_spec s && no_nul s).
+Proof. exact name_bytes_exact. Qed.
+Print Assumptions C06_topic_name_exact.
 Theorem C06_topic_filter_exact :
-  forall (s : str), valid_topic_filter_impl false s = Ok (valid_filter_spec s).
+  forall (s : str), valid_topic_filter_impl false s = Ok (valid_filter_spec s && no_nul s).
 Proof. exact filter_bytes_exact. Qed.
 Print Assumptions C06_topic_filter_exact.
-(* the other equivalences with MQTT 4.7 / 1.5.4 are still false: the empty topic name is accepted;
-   called directly (not after ValidUTF8) the topic predicates accept U+0000 *)
-Theorem C06_topics_refuted :
-  ~ name_equiv /\ ~ name_bytes_equiv /\ ~ filter_equiv /\ ~ v5_filter_equiv.
-Proof.
-  exact (conj name_equiv_refuted (conj name_bytes_equiv_refuted (conj filter_equiv_refuted v5_filter_equiv_refuted))).
-Qed.
-Print Assumptions C06_topics_refuted.
-(* ValidTopicName without the UTF-8 requirement is the specification's predicate on every
-   non-empty name *)
-Theorem C06_topic_name_partial :
-  forall (s : str), kf_t_name_empty s = false -> valid_topic_name_impl false s = Ok (valid_name_spec s).
-Proof. exact name_bytes_partial. Qed.
-Print Assumptions C06_topic_name_partial.
 
 (* ValidUTF8 on EVERY byte string: well-formed UTF-8 (Unicode table 3-7: no surrogates, no
    overlong forms, nothing above U+10FFFF), no U+0000, no control characters *)
@@ -194,25 +183,24 @@ Theorem C06_utf8_verdict :
 Proof. exact utf8_verdict. Qed.
 Print Assumptions C06_utf8_verdict.
 (* ValidTopicName(true, s) and ValidTopicFilter(true, s), as the decoder uses them (after
-   readUTF8String(true, ..) accepted s): the specification's verdict on every such s
-   (for names: non-empty) *)
-Theorem C06_topic_name_decoder_partial :
-  forall (s : str), valid_utf8_impl s = Ok true -> kf_t_name_empty s = false ->
+   readUTF8String(true, ..) accepted s): the specification's verdict on every such s *)
+Theorem C06_topic_name_decoder :
+  forall (s : str), valid_utf8_impl s = Ok true ->
     valid_topic_name_impl true s = Ok (spec_topic_name s).
-Proof. exact name_decoder_partial. Qed.
-Print Assumptions C06_topic_name_decoder_partial.
-Theorem C06_topic_filter_decoder_partial :
+Proof. exact name_decoder_exact. Qed.
+Print Assumptions C06_topic_name_decoder.
+Theorem C06_topic_filter_decoder :
   forall (s : str), valid_utf8_impl s = Ok true ->
     valid_topic_filter_impl true s = Ok (spec_topic_filter s).
-Proof. exact filter_decoder_partial. Qed.
-Print Assumptions C06_topic_filter_decoder_partial.
+Proof. exact filter_decoder_exact. Qed.
+Print Assumptions C06_topic_filter_decoder.
 (* the same for ValidV5Topic: MQTT 4.7.1 filters and 4.8.2 shared subscriptions
    ($share/{ShareName}/{filter}, ShareName non-empty without "/", "+", "#") *)
-Theorem C06_topic_v5_decoder_partial :
+Theorem C06_topic_v5_decoder :
   forall (s : str), valid_utf8_impl s = Ok true ->
     valid_v5_topic_impl s = Ok (spec_v5_filter s).
-Proof. exact v5_decoder_partial. Qed.
-Print Assumptions C06_topic_v5_decoder_partial.
+Proof. exact v5_decoder_exact. Qed.
+Print Assumptions C06_topic_v5_decoder.
 
 (* ---- non-vacuity *)
 (* a v5 PUBLISH (QoS 1, topic "a/b", pid 10, content type "t", one user property, payload "hi")
@@ -229,18 +217,15 @@ Example C06_nonvacuous_publish :
   end.
 Proof. vm_compute. repeat split. Qed.
 
-(* the open deviations are real: each witness is accepted by the model of the code *)
+(* the two open deviations are real: each witness is accepted by the model of the code, refused by
+   the specification, and named by its known-finding predicate *)
 Example C06_nonvacuous_findings :
-  (* five bytes make Unpack allocate 268435455 bytes *)
-  read_alloc 4 [48; 255; 255; 255; 127] = 268435455 /\
-  (* v5 SUBSCRIBE with Retain Handling 3 *)
-  (exists p, read_packet 5 [130; 7; 0; 1; 0; 0; 1; 97; 48] = Ok (p, [])) /\
-  spec_decode 5 [130; 7; 0; 1; 0; 0; 1; 97; 48] = SBad SRetainHandling /\
-  (* PUBACK with reserved flag bits set *)
-  (exists p, read_packet 4 [79; 2; 0; 1] = Ok (p, [])) /\ spec_decode 4 [79; 2; 0; 1] = SBad SFlags /\
-  (* an empty Response Topic property is accepted (v5 PUBLISH "a", properties 08 00 00) *)
-  (exists p, read_packet 5 [48; 7; 0; 1; 97; 3; 8; 0; 0] = Ok (p, [])) /\
-  spec_decode 5 [48; 7; 0; 1; 97; 3; 8; 0; 0] = SBad STopicName.
+  (* AUTH on a 3.1.1 connection *)
+  (exists p, read_packet 4 [240; 0] = Ok (p, [])) /\ spec_decode 4 [240; 0] = SBad SReservedType /\
+  kf_auth_v3 4 [240; 0] = true /\
+  (* a 3.1.1 PUBREL with remaining length 3 is read in the v5 form *)
+  (exists p, read_packet 4 [98; 3; 0; 1; 0] = Ok (p, [])) /\ spec_decode 4 [98; 3; 0; 1; 0] = SBad STrailing /\
+  kf_pubrel_v3 4 [98; 3; 0; 1; 0] = true.
 Proof. vm_compute. repeat split; eexists; reflexivity. Qed.
 
 (* the witnesses of the repaired defects now behave as the specification says *)
@@ -267,3 +252,35 @@ Example C06_repaired :
   (exists p, read_packet 4 [16; 19; 0; 4; 77; 81; 84; 84; 4; 194; 0; 60; 0; 1; 99; 0; 1; 117; 0; 1; 255] = Ok (p, [])) /\
   (exists p, read_packet 5 [240; 10; 24; 8; 21; 0; 1; 109; 22; 0; 1; 255] = Ok (p, [])).
 Proof. vm_compute. repeat split; eexists; reflexivity. Qed.
+
+(* the witnesses of the findings repaired in the third round *)
+Example C06_repaired3 :
+  (* PUBACK with flags 1111, PUBREL with flags 0000 *)
+  read_packet 4 [79; 2; 0; 1] = Err MALFORMED /\ read_packet 4 [96; 2; 0; 1] = Err MALFORMED /\
+  (* v5 SUBSCRIBE: Retain Handling 3; No Local on $share/g/a *)
+  read_packet 5 [130; 7; 0; 1; 0; 0; 1; 97; 48] = Err PROTOCOL /\
+  read_packet 5 [130; 16; 0; 1; 0; 0; 10; 36; 115; 104; 97; 114; 101; 47; 103; 47; 97; 4] = Err PROTOCOL /\
+  (* packet identifier 0: PUBLISH QoS 1, SUBSCRIBE, UNSUBSCRIBE *)
+  read_packet 4 [50; 5; 0; 1; 97; 0; 0] = Err PROTOCOL /\ read_packet 4 [130; 6; 0; 0; 0; 1; 97; 0] = Err PROTOCOL /\
+  read_packet 4 [162; 5; 0; 0; 0; 1; 97] = Err PROTOCOL /\
+  (* 3.1.1 CONNECT with the password flag and no user name flag *)
+  read_packet 4 [16; 16; 0; 4; 77; 81; 84; 84; 4; 66; 0; 60; 0; 1; 99; 0; 1; 112] = Err MALFORMED /\
+  (* v5 UNSUBSCRIBE "$share//a" *)
+  read_packet 5 [162; 14; 0; 1; 0; 0; 9; 36; 115; 104; 97; 114; 101; 47; 47; 97] = Err PROTOCOL /\
+  (* Will Delay Interval among the CONNECT properties *)
+  read_packet 5 [16; 19; 0; 4; 77; 81; 84; 84; 5; 2; 0; 60; 5; 24; 0; 0; 0; 1; 0; 1; 99] = Err PROTOCOL /\
+  (* a Property Length beyond the packet; a v5 PUBLISH without Property Length *)
+  read_packet 5 [48; 6; 0; 1; 97; 5; 1; 1] = Err MALFORMED /\ read_packet 5 [48; 3; 0; 1; 97] = Err MALFORMED /\
+  (* bytes left inside the remaining length: 3.1.1 PUBACK, CONNACK, DISCONNECT, v5 AUTH *)
+  read_packet 4 [64; 3; 0; 1; 0] = Err MALFORMED /\ read_packet 4 [32; 3; 0; 0; 0] = Err MALFORMED /\
+  read_packet 4 [224; 1; 0] = Err MALFORMED /\ read_packet 5 [240; 3; 0; 0; 0] = Err MALFORMED /\
+  (* remaining length 0 written as 80 00 *)
+  read_packet 4 [192; 128; 0] = Err MALFORMED /\
+  (* an empty Response Topic; the empty topic name; U+0000 in a name, a filter, a share name *)
+  read_packet 5 [48; 7; 0; 1; 97; 3; 8; 0; 0] = Err PROTOCOL /\
+  valid_topic_name_impl false [] = Ok false /\ valid_topic_name_impl false [97; 0] = Ok false /\
+  valid_topic_filter_impl false [97; 0] = Ok false /\
+  valid_v5_topic_impl [36; 115; 104; 97; 114; 101; 47; 103; 0; 47; 97] = Ok false /\
+  (* five bytes that declare 256 MiB allocate nothing *)
+  read_alloc 4 [48; 255; 255; 255; 127] = 0.
+Proof. vm_compute. repeat split. Qed.
